@@ -314,11 +314,18 @@ def decode_series(series):
     return th, seed
 
 
-class TableLoss(BaseLoss):
-    """Scripted loss: the value is a table look-up on the (decoded) vector the series were simulated at."""
+def _shift_filter(series):
+    """a coordinate filter that changes every value and keeps the length (module level: the loss is pickled in checkpoints)"""
+    return np.asarray(series) * 2.0 + 1.0
 
-    def __init__(self, table: dict, default: int, dims: int = 1) -> None:
-        super().__init__(np.array([1.0] + [0.0] * (dims - 1)), None)
+
+class TableLoss(BaseLoss):
+    """Scripted loss: the value is a table look-up on the (decoded) vector the series were simulated at.
+    filtered: the loss is configured with a value-changing coordinate filter on every coordinate - the base class filters what it
+    hands to compute_loss_1d; the series the calibrator records must still be what the model returned"""
+
+    def __init__(self, table: dict, default: int, dims: int = 1, filtered: bool = False) -> None:
+        super().__init__(np.array([1.0] + [0.0] * (dims - 1)), [_shift_filter] * dims if filtered else None)
         self.table = table
         self.default = default
 
@@ -626,7 +633,8 @@ def run_script(script: dict) -> dict:
     try:
         with quiet():
             samplers = [make_sampler(d, 9000 + i) for i, d in enumerate(cfg["lineup"])]
-            loss = TableLoss(script.get("loss", {}).get("by", {}), script.get("loss", {}).get("default", 6), int(cfg.get("D", 1)))
+            loss = TableLoss(script.get("loss", {}).get("by", {}), script.get("loss", {}).get("default", 6), int(cfg.get("D", 1)),
+                             filtered=bool(cfg.get("filtered", False)))
             SLOW[0] = bool(cfg.get("slow", False))
             SCRIBBLE[0] = bool(cfg.get("scribble", False)) and not SLOW[0]
             MODEL_D[0] = 1 if SLOW[0] or SCRIBBLE[0] else int(cfg.get("D", 1))
